@@ -1,4 +1,5 @@
 import OdxVerif.Proofs.CompBits2Msg
+import OdxVerif.Proofs.CompBits2Embed
 import OdxVerif.Props.C02Nested
 /-! # C02, nested tier, second edition (task W17) — bit-exact PDUs for the round-6 constructors (`Described2`):
     STRUCTUREs with BYTE-SIZE, MIN-MAX-LENGTH / LEADING-LENGTH leaves at any depth, MATCHING-REQUEST-PARAM,
@@ -319,5 +320,29 @@ theorem C02_bytesize_padding_silent :
     simp only [Except.ok.injEq, Prod.mk.injEq] at henc
     exact henc.2.symm
   exact hnd ((hiff hp).mp hw)
+
+/-! ### the second edition covers the first: `C02_bit_exact_nested` re-derived from `C02_bit_exact_nested2` via `Desc.to2` -/
+
+/-- every instance of `C02_bit_exact_nested` is an instance of `C02_bit_exact_nested2` (`Descs.to2_ok`, `Descs.to2_layout`,
+    `Descs.to2_padOk`: no BYTE-SIZE padding, so the side condition is vacuous) -/
+theorem C02_nested2_covers_nested (ds : List Desc) (hok : Descs.ok ds) (trig : Option Bytes) (pdu : Bytes)
+    (henc : encodeMessage none (Descs.params ds) (.dict (Descs.supplied ds)) trig true = .ok (pdu, 0)) :
+    (∀ e ∈ Descs.layout ds, ∀ j, j < e.bl → getBit pdu (absBit e.pos e.k e.hl (j + e.bp)) = e.raw.testBit j) ∧
+    (∀ a, (∀ e ∈ Descs.layout ds, ¬ e.claims a) → getBit pdu a = false) ∧
+    LDisj (Descs.layout ds) ∧ pdu.length = Descs.extent ds := by
+  have henc2 : encodeMessage none (Descs2.params (Descs.to2 ds)) (.dict (Descs2.supplied (Descs.to2 ds))) trig true = .ok (pdu, 0) := by
+    rw [Descs.to2_params, Descs.to2_supplied]; exact henc
+  obtain ⟨h1, h2, h4⟩ := C02_bit_exact_nested2 (Descs.to2 ds) trig (Descs.to2_ok trig ds hok) pdu henc2
+  obtain ⟨hb, hd⟩ := h1 (Descs.to2_padOk ds)
+  rw [Descs.to2_layout] at hb h2 hd
+  refine ⟨fun e he j hj => hb e.to2 (List.mem_map.mpr ⟨e, he, rfl⟩) j hj, ?_, ?_, by rw [h4, Descs.to2_extent]⟩
+  · intro a ha
+    apply h2 a
+    intro e2 he2 hc
+    obtain ⟨e, he, rfl⟩ := List.mem_map.mp he2
+    exact ha e he hc
+  · have := (LDisj2_iff _).mp hd
+    rw [List.map_map] at this
+    exact (LDisj_geo _).mp this
 
 end OdxVerif.Codec
